@@ -273,5 +273,5 @@ def obligations(tier):
         Ob(name="K3-no-side-effects", engine="pathex", harness=h_side_effects,
            functions=["every linter command (in-process CLI)", "DRYCache (memory / tempfile)", "Orchestrator.lint_directory / lint_directory_parallel"],
            bounds="forked: every linter command x sequential/--parallel x DRY storage mode; project directory and temp directory snapshotted before/after",
-           timeout=900, workers=8, must_cover=("ran",)),
+           timeout=900, workers=1, must_cover=("ran",)),
     ]
